@@ -55,6 +55,17 @@ func (ac *AuthCache) Compare(user string, pwd []byte) bool {
 	return ok && cache.Compare(pwd)
 }
 
+// CompareWithBase is Compare for an entry that was made against the given stored hash: an
+// entry cached for an older hash of the user (password changed, user re-created) does not count,
+// whether or not CleanIfNeeded has run since.
+func (ac *AuthCache) CompareWithBase(user, base string, pwd []byte) bool {
+	ac.mu.RLock()
+	cache, ok := ac.cache[user]
+	ac.mu.RUnlock()
+
+	return ok && cache.base == base && cache.Compare(pwd)
+}
+
 func (ac *AuthCache) Create(user, base string, pwd []byte) {
 	ac.mu.Lock()
 	defer ac.mu.Unlock()
@@ -393,7 +404,7 @@ func (a *Auth) authenticate(user *meta.UserInfo, password string) error {
 	pwd := util.Str2bytes(password)
 
 	// Check the local auth cache first.
-	if a.cache.Compare(user.Name, pwd) {
+	if a.cache.CompareWithBase(user.Name, user.Hash, pwd) {
 		return nil
 	}
 
